@@ -3,7 +3,7 @@ import collections
 from lib import *
 import skel
 
-THEOREMS = ["Vars.block_scoped", "Vars.goStmt_stack", "Vars.use_undefined_iff", "Vars.use_skipped_iff",
+THEOREMS = ["Vars.no_false_e482", "Vars.e482_justified", "Vars.step_inv", "Vars.goStmt_run", "Vars.block_scoped", "Vars.goStmt_stack", "Vars.use_undefined_iff", "Vars.use_skipped_iff",
             "Vars.use_ok_iff", "Vars.declare_clash_iff",
             "Vars.skip_detected", "Vars.goStmt_pending", "Vars.goStmt_persist", "Vars.goStmt_fresh"]
 R = 0        # declared first in every body
